@@ -187,6 +187,8 @@ def _run(ctx, pq):
         ctx.count("P.pair", pc["pair"])
         for v in res.get("vias", []):
             ctx.count("P.via", v)
+    # ---- the same class through the reusable module: twin datasets against a fresh interpreter
+    TW.run(ctx, "harness.props.C14", [dict(TW.gen_partition_case(rng, i), scheme="hive") for i in range(10 if quick else 40)], stream="P.twins")
     for case, res in zip(cases, results):
         ctx.case(case, trivial=(len(case["files"]) == 1 and case["root_mode"] == "inferred"))
         ctx.count("B.shape", case["shape"])
@@ -269,7 +271,8 @@ def gen_dataset_case(rng, confirm, i):
             "bad_schema": rng.randrange(1, k) if bad_schema else None, "dup": dup, "relative": relative,
             "junk": rng.random() < 0.3, "dir_slash": rng.random() < 0.3,
             # one file with the same columns in another order (columns are matched by name; with verify such a list is refused)
-            "colperm": rng.randrange(k) if (not verify and shape != "subdatasets" and rng.random() < 0.2) else None}
+            "colperm": rng.randrange(k) if (not verify and shape != "subdatasets" and rng.random() < 0.3) else None,
+            "colperm_seed": rng.randrange(1000)}
 
 
 def _frame(spec, bad=False):
@@ -318,8 +321,12 @@ def check_dataset(case, root, pq, ctx=None, verbose=False):
     for j, spec in enumerate(case["files"]):
         d = os.path.join(root, *spec["dir"])
         df = _frame(spec, bad=(case["bad_schema"] == j))
-        if case.get("colperm") == j:
-            df = df[list(df.columns)[::-1]]
+        if case.get("colperm") == j:      # the same columns in another order: chunk order differs between the files (C14_concat_chunk_order)
+            import random as _r
+            cols_p = list(df.columns)[::-1]
+            if case.get("colperm_seed") is not None and case["colperm_seed"] % 2:
+                _r.Random(case["colperm_seed"]).shuffle(cols_p)
+            df = df[cols_p]
         if shape == "subdatasets":
             df["k"] = pd.Series([["a", "b"][x % 2] for x in range(len(df))], dtype="str")
             if len(df) == 0:
@@ -437,6 +444,28 @@ def check_dataset(case, root, pq, ctx=None, verbose=False):
             model = [[("bad" if isinstance(x, (bytes, bytearray)) else x) for x in cell] for cell in mo] if isinstance(mo, list) else mo
             ctx.correspondence("CatRead.read_cat(per-file dictionaries and codes) ~ categorical column of the merged read",
                                dict(_replayable(case), via=via), model, impl)
+        # the merged metadata must DESCRIBE the concatenation: every column chunk of every row group names the file that holds it
+        # (a chunk without file_path means "in the file this metadata is stored in" - wrong for a summary written from it)
+        if len(order) > 1 or shape == "subdatasets":
+            for gi, rg in enumerate(pf.row_groups):
+                fps = [c.file_path.decode() if isinstance(c.file_path, (bytes, bytearray)) else c.file_path for c in rg.columns]
+                if any(x is None for x in fps) or len(set(fps)) != 1:
+                    problems.append("%s: row group %d of the merged metadata has chunk file paths %r" % (via, gi, fps[:4]))
+                    if ctx is not None:
+                        ctx.fail(dict(cls, stage="chunk-paths"), _replayable(case), problems[-1])
+                    break
+        # every column on its own (a subset read walks the chunks by name and opens the file each chunk names)
+        if kw.get("subsets") and case["bad_schema"] is None:
+            for c in [c for c in cols if c in df.columns and c != "c"]:
+                try:
+                    one = pf.to_pandas(columns=[c])
+                    if _canon_frame(one, [c]) != _canon_frame(df, [c]):
+                        problems.append("%s: to_pandas(columns=[%r]) differs from the column of the full read" % (via, c))
+                except Exception as e:      # noqa
+                    problems.append("%s: to_pandas(columns=[%r]) raised %s: %s" % (via, c, type(e).__name__, str(e)[:120]))
+                if problems and problems[-1].startswith(via + ": to_pandas(columns") and ctx is not None:
+                    ctx.fail(dict(cls, stage="column-subset"), _replayable(case), problems[-1])
+                    break
         try:        # the row-group iterator of the merged handle walks the same rows in the same order
             it_ids = [int(x) for fr in pf.iter_row_groups(columns=["id"]) for x in fr["id"]]
             if it_ids != [int(x) for x in df["id"]]:
@@ -588,7 +617,39 @@ def _vias(case, root, pq, ctx, compare, plist, paths, order, uniq_order, base, g
         def do_merge():
             out = writer.merge(list(plist), verify_schema=verify, **({"root": given_root} if given_root else {}))
             return ParquetFile(os.path.dirname(out.fn) or ".")
-        compare("merge", do_merge, order, base, verify=verify)
+        compare("merge", do_merge, order, base, verify=verify, subsets=True)
+
+        # ---- the summary WRITTEN from the footer fast path (>= 3 single files, no verification): merge(verify_schema=False), and an append
+        #      to a directory that has no _metadata (write(append=True) opens it through the listing, then writes _metadata): re-open the
+        #      summary, read everything and every column on its own
+        def do_merge_nv():
+            out = writer.merge(list(plist), verify_schema=False, **({"root": given_root} if given_root else {}))
+            return ParquetFile(os.path.dirname(out.fn) or ".")
+        if not verify:
+            compare("merge-noverify", do_merge_nv, order, base, subsets=True)
+        if shape == "flat" and case.get("dup") is None and not verify and case["cat_mode"] in ("none", "same") and case.get("colperm") is None \
+                and not any(f.get("objbool") for f in case["files"]):
+            for junk in ("_metadata", "_common_metadata"):
+                try:
+                    os.unlink(os.path.join(root, junk))
+                except OSError:
+                    pass
+            espec = dict(case["files"][0], n=2, off=10 ** 6)
+            extra = _frame(espec)
+            sorted_order = sorted(uniq_order, key=lambda j: paths[j])
+            singles.append(extra)
+            case["files"].append(espec)
+            try:
+                def do_append():
+                    from fastparquet import write as fwrite
+                    fwrite(root, extra, file_scheme="hive", append=True)
+                    return ParquetFile(root)
+                paths.append(os.path.join(root, "appended"))
+                compare("append-to-directory-without-summary", do_append, sorted_order + [len(singles) - 1], root, subsets=True)
+            finally:
+                singles.pop()
+                paths.pop()
+                case["files"].pop()
     for p in problems[:8]:
         say("PROBLEM:", p)
     return {"problems": problems, "vias": vias}
@@ -813,8 +874,48 @@ def check_pair(case, root, pq, ctx=None, verbose=False):
     return {"problems": problems, "trivial": False, "vias": vias}
 
 
+# -------------------------------------------------------------------------------------------------- twins (harness/twins.py)
+# the generalisation of stream P: the same colliding pairs, every way of opening them, each answer against a FRESH interpreter that has
+# seen only that dataset (stream P compares with the values written; the twins catch state shared across datasets whatever it corrupts)
+def _tw_nometa(root, case, which):
+    from fastparquet import ParquetFile
+    for junk in ("_metadata", "_common_metadata"):
+        try:
+            os.unlink(os.path.join(root, junk))
+        except OSError:
+            pass
+    return L.twin_partition_answer(ParquetFile(root), case)
+
+
+def _tw_merge(root, case, which):
+    from fastparquet import ParquetFile, writer
+    writer.merge(L.twin_files(root), root=root)
+    return L.twin_partition_answer(ParquetFile(root), case)
+
+
+def _tw_open(how):
+    def op(root, case, which):
+        from fastparquet import ParquetFile
+        files = L.twin_files(root)
+        if how == "directory":
+            return L.twin_partition_answer(ParquetFile(root), case)
+        if how == "list-of-2":
+            return L.twin_partition_answer(ParquetFile(files[:2], root=root), case)
+        if how == "instances":
+            return L.twin_partition_answer(ParquetFile([ParquetFile(f) for f in files], root=root), case)
+        return L.twin_partition_answer(ParquetFile(files, root=root), case)
+    return op
+
+
+from harness import twins as TW       # noqa: E402
+twin_build = TW.partition_twins
+TWIN_OPS = {"directory": _tw_open("directory"), "list-of-2": _tw_open("list-of-2"), "list-all": _tw_open("list-all"),
+            "instances": _tw_open("instances"), "directory-without-summary": _tw_nometa, "merge": _tw_merge,
+            "directory-again": _tw_open("directory")}
+
+
 def _replayable(case):
-    return {k: case.get(k) for k in ("shape", "files", "root_mode", "cat_mode", "verify", "bad_schema", "dup", "relative", "junk", "dir_slash", "colperm")}
+    return {k: case.get(k) for k in ("shape", "files", "root_mode", "cat_mode", "verify", "bad_schema", "dup", "relative", "junk", "dir_slash", "colperm", "colperm_seed")}
 
 
 def replay(rep):
@@ -836,6 +937,8 @@ def replay(rep):
             return 1 if bad else 0
         finally:
             shutil.rmtree(tmp, ignore_errors=True)
+    if "twins" in case:
+        return TW.replay(case)
     if "pair_case" in case:
         tmp = tempfile.mkdtemp(prefix="verif-C14-replay-", dir="/tmp")
         try:
